@@ -302,6 +302,20 @@ func (g *G) PacketOut() (util.Message, *spec.Node) {
 		p.AddAction(as[i])
 		n.Add(ns[i])
 	}
+	// Late growth (only for the size/embedding and repeatability checks, which set LateGrowth): PacketOut.Len walks
+	// its action list when asked, so a conntrack action can still receive nested actions after it was
+	// attached. The cached actions_len of the header is then stale, which is why the wire-grammar checks do
+	// not use this history (bottom-up construction is their stated precondition).
+	if g.LateGrowth && g.Budget > 256 && g.Chance("late_growth_po", 1, 3) {
+		ct := of.NewNXActionConnTrack()
+		p.AddAction(ct)
+		for i, k := 0, g.Int("late_nested_po", 1, 3); i < k; i++ {
+			sub, sn := genNAT(g)
+			g.Budget -= len(spec.Encode(sn))
+			ct.AddAction(sub)
+		}
+		g.Label("late_growth_in_packet_out")
+	}
 	data := g.Bytes("data", dl)
 	p.SetData(cp(data))
 	n.With(spec.B("data", data))
